@@ -101,7 +101,7 @@ OPS = ['digest', 'media', 'text', 'data201', 'media-resp', 'stream-len', 'stream
        'err404', 'err400-headers', 'err-invalid-header', 'err422', 'err405', 'redir301', 'redir302', 'redir303',
        'redir307', 'redir308', 'httpstatus', 'cookies', 'multi-header', 'boom', 'resp-attrs', 'partial', 'noroute',
        'empty-data-media', 'empty-text-data', 'empty-media-stream', 'stream-file',
-       'mw-dep-complete', 'mw-indep-complete', 'mw-dep-refuse']
+       'mw-dep-complete', 'mw-indep-complete', 'mw-dep-refuse', 'params-write', 'status204-media', 'status304-media']
 
 
 def names(seed):
@@ -220,7 +220,10 @@ _SIDE = []     # digests computed by the responder during the current execution 
 def _logic(op, nm, is_async, req, resp, kw):
     """Generator: yields 'body' / 'media' when it needs the request body; receives the value
     (or has the exception thrown in).  Everything else is stack-independent."""
-    if op == 'digest' or op == 'partial' or op == 'noroute':
+    if op == 'digest' or op == 'partial' or op == 'noroute' or op == 'params-write':
+        if op == 'params-write':
+            # application code annotating ITS OWN request's parameter mapping (a tenant / trace id looked up later)
+            req.params['_w'] = '%s %s?%s' % (req.method, req.path, req.query_string)
         try:
             body = yield 'body'
             body = _norm(body)
@@ -305,6 +308,12 @@ def _logic(op, nm, is_async, req, resp, kw):
     elif op == 'status204':
         resp.status = 204
         resp.text = 'ignored'
+    elif op == 'status204-media':
+        resp.status = 204
+        resp.media = {'ignored': True}
+    elif op == 'status304-media':
+        resp.status = '304 Not Modified'
+        resp.media = ['ignored']
     elif op == 'status204-custom':
         resp.status = '204 Nothing'
         resp.text = 'ignored'
